@@ -34,3 +34,34 @@ def pgSingleRootKeys (ks : List PGKey) : Bool :=
     | _ => false
 
 end Pm
+
+namespace Pm
+open Automaton
+
+/-- The keys `add_pattern` records for a port-graph pattern given its constraint vector. -/
+def pgPatternKeys (cs : List PGCons) : List PGKey :=
+  cs.foldl (fun keys c => keys ++ (allMissingBindings pgReq c.args keys 64).getD []) []
+
+/-- Decidable per-program condition of the anchored traversal theorem for single-root
+port-graph programs (`css` = the constraint vectors of the compiled patterns, by id):
+as `strProgramOK`, with start key `root 0`, and every key a single-root key. -/
+def pgProgramOK (a : Automaton PGKey PGPred) (css : List (Option (List PGCons))) : Bool :=
+  a.liveStates.all fun s =>
+    let w := a.stateD s
+    decide (w.eorder.length ≤ 1) &&
+    (w.corder.all fun t => match a.g.edge? t with
+      | some ⟨_, _, some c⟩ => decide (c.args.length = c.pred.arity) && c.args.all w.scope.contains
+      | _ => false) &&
+    (w.eorder.all fun t => match a.g.edge? t with
+      | some ⟨_, _, none⟩ => true
+      | _ => false) &&
+    ((w.corder.isEmpty && w.eorder.isEmpty) || !w.scope.isEmpty) &&
+    prereqOrdered pgReq w.scope && decide w.scope.Nodup && pgSingleRootKeys w.scope &&
+    (w.matches_.all fun m =>
+      prereqOrdered pgReq m.2 && decide m.2.Nodup && pgSingleRootKeys m.2 &&
+      (s == a.root || !m.2.isEmpty) &&
+      (match css[m.1]? with
+       | some (some cs) => decide (m.2 = pgPatternKeys cs)
+       | _ => false))
+
+end Pm
